@@ -102,6 +102,15 @@ def managed_provide_cache(provide_id: str) -> Generator[None, None, None]:
         elif provide_id not in provide_references and provide_id in provide_cache:
             provide_cache.pop(provide_id)
 
+    # The `{% provide %}` tag itself holds a reference for as long as its body is being rendered.
+    # Otherwise, when the body contains components that are rendered right away (root components,
+    # e.g. when `{% provide %}` is used at the top level of a template), the first such component to finish
+    # would drop the last reference, and the provided data would be gone for its siblings.
+    if provide_id not in provide_references:
+        provide_references[provide_id] = set()
+    provide_references[provide_id].add(provide_id)
+    all_reference_ids.add(provide_id)
+
     try:
         yield
     except Exception as e:
@@ -117,6 +126,7 @@ def managed_provide_cache(provide_id: str) -> Generator[None, None, None]:
         raise e from None
 
     # Cleanup
+    unregister_provide_reference(provide_id)
     cache_cleanup()
 
 
